@@ -171,7 +171,7 @@ func judge(c *lib.Ctx, dir, name string, streams []stream) error {
 	for i, s := range streams {
 		groups[i] = append([]rec{{A: -2, R: -1}}, s.recs...)
 	}
-	bad, err := lib.JudgeGroups(c, name, dir, "TraceTermReader", groups, 6, 12*time.Minute)
+	bad, err := lib.JudgeGroups(c, name, dir, "TraceTermReader", groups, 4, 12*time.Minute)
 	if err != nil {
 		return err
 	}
